@@ -77,6 +77,54 @@ __CPROVER_ensures(C17_POS_FRAME_ALL(self) && C17_NAMED_FRAME_ALL)
 __CPROVER_assigns(verif_exc);
 
 
+/* ---------------------------------------------------------------------------------------------------- get_multi<RetT>
+ * -DC17_GM_KIND=0 std::string, 1 integral, 2 floating point.  The conversion of one value is abstract here (parse_int /
+ * parse_float have their own groups): GM_PARSE yields, per element, either a value or invalid_argument; the outcome of the
+ * observed element g_nj is (g_ok, g_val). */
+#ifdef GM_NAME
+extern bool g_ok; extern uint64_t g_val;
+#if C17_GM_KIND == 2
+#define C17_BITS(v) C17_dbits((double)(v))
+static inline uint64_t C17_dbits(double d) { union { double d; uint64_t u; } x; x.d = d; return d != d ? 0x7FF8000000000000ull : x.u; }   /* NaN modulo payload */
+#else
+#define C17_BITS(v) (v)
+#endif
+#if C17_GM_KIND != 0
+RetT GM_PARSE(const vstr* id, const vstr* text, int format)
+__CPROVER_requires(verif_exc == EXC_none)
+__CPROVER_ensures(verif_exc == EXC_none || verif_exc == EXC_invalid_argument)
+__CPROVER_ensures((g_nj < g_vals->size && text == &g_vals->data[g_nj].text) ==> (verif_exc == (g_ok ? EXC_none : EXC_invalid_argument)))
+__CPROVER_ensures((g_nj < g_vals->size && text == &g_vals->data[g_nj].text && g_ok) ==> (uint64_t)C17_BITS(__CPROVER_return_value) == g_val)
+__CPROVER_assigns(verif_exc);
+#define C17_GM_ELEM_OK (g_ok && g_out_written && g_out_val == g_val)
+#define C17_GM_FORMAT , int format
+#else
+#define C17_GM_ELEM_OK (g_out_written && g_out_ptr == &g_vals->data[g_nj].text)
+#define C17_GM_FORMAT
+#endif
+#if C17_GM_KIND != 1
+#undef C17_GM_FORMAT
+#define C17_GM_FORMAT
+#endif
+
+void GM_NAME(Arguments* self, C17_outvec* ret, const vstr* name C17_GM_FORMAT)
+C17_GETTER_REQ(self)
+__CPROVER_requires(__CPROVER_is_fresh(ret, sizeof(C17_outvec)))
+__CPROVER_requires(ret->size == 0 && !g_out_written && C17_empty_vec.size == 0)
+/* all values converted: one result per value, in order, every value marked read */
+__CPROVER_ensures(verif_exc == EXC_none ==> ret->size == (g_present ? g_vals->size : 0))
+__CPROVER_ensures((verif_exc == EXC_none && g_present && g_nj < g_vals->size) ==> (C17_GM_ELEM_OK && g_vals->data[g_nj].used))
+/* otherwise invalid_argument, raised by the conversion of value g_wit_j, all values before it being valid (which of this
+ * option's values count as read after the exception is not specified) */
+__CPROVER_ensures(verif_exc == EXC_none || (verif_exc == EXC_invalid_argument && C17_GM_KIND != 0 && g_present && g_wit_j < g_vals->size))
+__CPROVER_ensures((verif_exc != EXC_none && g_wit_j == g_nj) ==> !g_ok)
+__CPROVER_ensures((verif_exc != EXC_none && g_nj < g_wit_j) ==> g_ok)
+/* frame */
+__CPROVER_ensures(!g_present ==> C17_NAMED_FRAME_ALL)
+__CPROVER_ensures(C17_POS_FRAME_ALL(self))
+__CPROVER_assigns(verif_exc, ret->size, g_out_written, g_out_val, g_out_ptr, g_wit_j; g_present: __CPROVER_object_whole(g_vals->data));
+#endif
+
 /* ------------------------------------------------------------------------------------------ typed single-value getters
  * One textual instantiation per group: RetT, IdentT (-DC17_IDENT_NAMED=1: option name, 0: positional index), and the case
  * split -DC17_CASE_PRESENT=1 (the argument exists; its text is any std::string, abstract numeral as in C17_parse.h) /
@@ -134,7 +182,7 @@ __CPROVER_ensures(!C17_COMPLETE(C17_ETEXT(self, id)) ==> verif_exc == EXC_invali
 __CPROVER_ensures(verif_exc == EXC_none || verif_exc == EXC_invalid_argument)
 __CPROVER_ensures((verif_exc == EXC_none && C17_DECIDED) ==> __CPROVER_return_value == C17_VALUE)
 __CPROVER_ensures(g_base == C17_SPEC_BASE(format))
-__CPROVER_ensures(C17_ELEM(self, id)->used)                         /* the argument was read, valid or not */
+__CPROVER_ensures(verif_exc == EXC_none ==> C17_ELEM(self, id)->used)   /* a delivered argument counts as read (after invalid_argument: not specified) */
 #else
 __CPROVER_ensures(verif_exc == EXC_out_of_range)
 #endif
@@ -150,7 +198,7 @@ __CPROVER_ensures(!C17_COMPLETE(C17_ETEXT(self, id)) ==> verif_exc == EXC_invali
 __CPROVER_ensures(verif_exc == EXC_none || verif_exc == EXC_invalid_argument)
 __CPROVER_ensures((verif_exc == EXC_none && C17_DECIDED) ==> __CPROVER_return_value == C17_VALUE)
 __CPROVER_ensures(g_base == C17_SPEC_BASE(format))
-__CPROVER_ensures(C17_ELEM(self, id)->used)
+__CPROVER_ensures(verif_exc == EXC_none ==> C17_ELEM(self, id)->used)
 #else
 __CPROVER_ensures(verif_exc == EXC_none && __CPROVER_return_value == default_value)      /* the supplied default */
 #endif
@@ -164,7 +212,7 @@ C17_TYPED_REQ(self, id)
 __CPROVER_ensures((verif_exc == EXC_none) == C17_COMPLETE(C17_ETEXT(self, id)))
 __CPROVER_ensures(verif_exc == EXC_none || verif_exc == EXC_invalid_argument)
 __CPROVER_ensures(verif_exc == EXC_none ==> C17_FEQ(__CPROVER_return_value, (RetT)g_fval))
-__CPROVER_ensures(C17_ELEM(self, id)->used)
+__CPROVER_ensures(verif_exc == EXC_none ==> C17_ELEM(self, id)->used)
 #else
 __CPROVER_ensures(default_value.has_value ? (verif_exc == EXC_none && C17_FEQ(__CPROVER_return_value, default_value.value)) : verif_exc == EXC_out_of_range)
 #endif
